@@ -109,6 +109,7 @@ Plan parse_plan(const std::string &text) {
             p.soak = kv.u64("soak", 0);
             p.lstack = kv.u64("lstack", 0);
             p.argorder = kv.u64("argorder", 0);
+            p.longnames = kv.u64("longnames", 0);
             p.stackfill = (int)kv.u64("stackfill", 0xA5);
         } else if (kv.op == "can") {
             CanW w;
@@ -117,6 +118,7 @@ Plan parse_plan(const std::string &text) {
             std::string fl = kv.str("fl");
             if (fl.find('E') != std::string::npos) w.c.can_id |= CAN_EFF_FLAG;
             if (fl.find('R') != std::string::npos) w.c.can_id |= CAN_RTR_FLAG;
+            if (fl.find('X') != std::string::npos) w.c.can_id |= CAN_ERR_FLAG;
             w.c.len = (uint8_t)kv.u64("len");
             w.c.flags = (uint8_t)kv.u64("ff", 0);
             w.c.fd = kv.has("ff");
@@ -136,6 +138,21 @@ Plan parse_plan(const std::string &text) {
             p.inj.push_back(Inj{kv.u64("t"), sim::unhex(kv.str("data")), kv.str("note")});
         } else if (kv.op == "clkjump") {
             p.clkjump.push_back(Plan::ClkJump{kv.u64("t"), (int)kv.u64("node", 0), kv.i64("delta")});
+        } else if (kv.op == "injrep") {
+            InjRep ir;
+            ir.t = kv.u64("t"); ir.dt = std::max<uint64_t>(1, kv.u64("dt", 1)); ir.n = std::min<uint64_t>(kv.u64("n"), 100000); ir.data = sim::unhex(kv.str("data"));
+            std::string st = kv.str("step", "");
+            size_t pos = 0;
+            while (pos < st.size()) {
+                size_t e = st.find(',', pos);
+                std::string one = st.substr(pos, e == std::string::npos ? std::string::npos : e - pos);
+                size_t c1 = one.find(':'), c2 = one.find(':', c1 + 1);
+                if (c1 != std::string::npos && c2 != std::string::npos)
+                    ir.steps.push_back(InjRep::Step{(size_t)strtoull(one.c_str(), nullptr, 0), (unsigned)strtoul(one.c_str() + c1 + 1, nullptr, 0), strtoull(one.c_str() + c2 + 1, nullptr, 0)});
+                if (e == std::string::npos) break;
+                pos = e + 1;
+            }
+            p.injrep.push_back(ir);
         } else if (kv.op == "inrep") {
             InRep ir;
             ir.t = kv.u64("t"); ir.dt = std::max<uint64_t>(1, kv.u64("dt", 1)); ir.n = kv.u64("n"); ir.node = (int)kv.u64("node", 0);
@@ -340,11 +357,11 @@ static void setup_nodes(RunState &rs) {
         std::vector<std::vector<std::string>> tg, lg;
         if (p.tscf) tg.push_back({"-t"});
         if (p.udp) { tg.push_back({"-u"}); tg.push_back({"--dst-nw-addr", "10.0.0.2:17220"}); lg.push_back({"-u"}); lg.push_back({"-p", "17220"}); }
-        else { tg.push_back({"-i", "eth0"}); tg.push_back({"-d", kMacStream}); lg.push_back({"-i", "eth0"}); lg.push_back({"-d", kMacStream}); }
+        else { tg.push_back({"-i", p.longnames ? "eth-backbone-01" : "eth0"}); tg.push_back({"-d", kMacStream}); lg.push_back({"-i", p.longnames ? "eth-backbone-01" : "eth0"}); lg.push_back({"-d", kMacStream}); }
         if (p.fd) { tg.push_back({"--fd"}); lg.push_back({"--fd"}); }
         tg.push_back({"-c", std::to_string(p.count)});
-        tg.push_back({"--canif", "vcan0"});
-        lg.push_back({"--canif", "vcan1"});
+        tg.push_back({"--canif", p.longnames ? "vcan-powertrain" : "vcan0"});
+        lg.push_back({"--canif", p.longnames ? "vcan-body-right" : "vcan1"});
         if (p.argorder) {
             sim::Rng ar(sim::mix64(p.rseed, 0xA26C));
             for (auto *g : {&tg, &lg})
@@ -541,7 +558,8 @@ void exec_plan(const std::string &text, bool verbose) {
     };
     // ---- hooks
     w.hooks.on_can_read = [](World &, int node, const CanRec &c) {
-        if (node == g_rs->talker) g_rs->pending_cargo.push_back(c);
+        // (an error message frame read by the talker is a report about the bus, not a frame of the bus: it carries no cargo)
+        if (node == g_rs->talker && !(c.can_id & CAN_ERR_FLAG)) g_rs->pending_cargo.push_back(c);
     };
     w.hooks.on_send = [c19](World &w, int node, Frame &f) {
         RunState &rs = *g_rs;
@@ -634,6 +652,24 @@ void exec_plan(const std::string &text, bool verbose) {
         w.at(w.t_origin + ir.t + (k + 1) * ir.dt, [ri, k] { feed_rep(ri, k + 1); });
     };
     for (size_t ri = 0; ri < p.inrep.size(); ri++) w.at(w.t_origin + p.inrep[ri].t, [ri] { feed_rep(ri, 0); });
+    // flood: copy k of a datagram is built and injected when its time comes
+    static std::function<void(size_t, uint64_t)> flood_rep;
+    flood_rep = [&w](size_t ri, uint64_t k) {
+        const InjRep &ir = g_rs->plan.injrep[ri];
+        if (k >= ir.n || g_rs->quiet) return;
+        Frame f;
+        f.data = ir.data;
+        for (auto &st : ir.steps)
+            if (st.w && st.bit + st.w <= f.data.size() * 8) wire::set_bits(f.data, st.bit, st.w, wire::get_bits(f.data, st.bit, st.w) + k * st.delta);
+        f.udp = g_rs->plan.udp;
+        f.src_node = -1;
+        f.damaged = true;
+        f.id = w.next_frame_id++;
+        w.count("fault.flood_copy");
+        w.inject_to_node(g_rs->listener, f);
+        w.at(w.t_origin + ir.t + (k + 1) * ir.dt, [ri, k] { flood_rep(ri, k + 1); });
+    };
+    for (size_t ri = 0; ri < p.injrep.size(); ri++) w.at(w.t_origin + p.injrep[ri].t, [ri] { flood_rep(ri, 0); });
     if (p.soak) {
         // early window [5 %, 10 %] and two late windows [88 %, 93 %], [94 %, 99 %] of the run
         static const double marks[6] = {0.05, 0.10, 0.88, 0.93, 0.94, 0.99};
@@ -780,6 +816,16 @@ void exec_plan(const std::string &text, bool verbose) {
                           strf("%lld heap blocks (%lld bytes) that the listener allocated while handling datagrams are still allocated after everything queued has been presented "
                                "(%llu allocations, %llu datagrams received): memory is lost per datagram, the process fails when it runs out",
                                (long long)(hn.heap_live - hn.heap_first), (long long)hn.heap_live_bytes, (unsigned long long)hn.heap_allocs, (unsigned long long)rs.recv_total));
+        }
+        {
+            // The CAN, hello-world and VSS listeners keep nothing between datagrams (no allocation at all on the pinned tree): blocks
+            // that pile up with the number of datagrams are memory lost, or state growing, per datagram
+            Node &hn = w.nodes[rs.listener];
+            int64_t left = hn.heap_first >= 0 ? hn.heap_live - hn.heap_first : 0;
+            if ((p.scen == "can" || p.scen == "hello" || p.scen == "vss") && !p.soak && left >= 16 && (uint64_t)left * 4 >= rs.recv_total)
+                violation(strf("heap-growth:%s", hn.prog.c_str()),
+                          strf("%lld heap blocks (%lld bytes) allocated while handling %llu datagrams are still allocated at the end of the run: memory use grows with the number of "
+                               "datagrams received", (long long)left, (long long)hn.heap_live_bytes, (unsigned long long)rs.recv_total));
         }
         if (p.soak) {
             // the same kind of valid traffic that produced output early in the run must still produce output late in the run
